@@ -222,6 +222,19 @@ int main(int argc, char** argv) {
       Image a = make_image(w, h, alpha, 8);
       string bytes = a.save(Image::Format::PNG);
       if (int r = decode_png(bytes, w, h, alpha, a)) return r;
+      // incompressible (noise-like) content: zlib falls back to stored blocks and needs the full compressBound() of the scan-line buffer
+      for (auto dims : {std::pair<size_t, size_t>{3, 5}, {7, 9}, {1, 40}, {16, 16}, {33, 3}}) {
+        Image n(dims.first, dims.second, alpha);
+        uint64_t st = 0x9E3779B97F4A7C15ull;
+        for (size_t y = 0; y < dims.second; y++) for (size_t x = 0; x < dims.first; x++) {
+          st = st * 6364136223846793005ull + 1442695040888963407ull;
+          n.write_pixel(x, y, (st >> 56) & 0xFF, (st >> 48) & 0xFF, (st >> 40) & 0xFF, alpha ? ((st >> 32) & 0xFF) : 0xFF);
+        }
+        string nb;
+        try { nb = n.save(Image::Format::PNG); }
+        catch (const std::exception& e) { printf("POSTCONDITION VIOLATED on the real code: save(PNG) of a %zux%zu image with noise content threw: %s\n", dims.first, dims.second, e.what()); return 1; }
+        if (int r = decode_png(nb, dims.first, dims.second, alpha, n)) return r;
+      }
     } else if (m == "bmp_load") {
       unsigned depth = A.u("in_depth", 24), comp = A.u("in_comp", 0);
       bool topdown = A.u("in_rev") & 1;
